@@ -287,3 +287,24 @@ reg("C12", c12_units,
 reg("C17", lambda tier: cmd_units("C17/", ["set-json", "set-flags", "set-body-stdin", "new-task-json", "new-task-flags", "new-task-body-stdin", "new-epic-json", "new-epic-flags", "new-epic-body-stdin"]),
     "bounded symbolic model checking of the data flow of titles and bodies through every input mode of new task / new epic / set: the text is an unconstrained atom (every string), and what a following read returns must be that atom, or its TrimSpace exactly where the manual documents trimming; plan texts are covered by C11 (run-plan), survival through compact by C05.",
     ["encoding/json is assumed to round-trip every valid-UTF-8 string through Marshal/Unmarshal and through the non-HTML-escaping output encoder (contract of the package; not encoded)", "strings are opaque atoms here: the claim is about which input reaches which field unaltered, not about byte-level escaping"])
+
+
+# ---------------------------------------------------------------- C20
+def c20_units(tier):
+    hs = HSCMD + ["c20.go"]
+    hs5 = ["c06.go", "c07.go", "c14.go", "c05.go"]
+    us = [
+        Unit("path-rules", hs, "zzC20_PathRules", dict(STUB, only="C20/"), bounds="ANY repo dir and ANY path string as opaque atoms; filepath.Clean/IsAbs/Join and strings.HasPrefix/Contains uninterpreted; os.Stat answers missing / directory / regular file symbolically; real validateResultPath"),
+        Unit("result-step", hs, "zzC20_ResultStep", dict(STUB, only="C20/"), bounds="store of 2 items with <=2 results each, 1 tombstone; ONE arbitrary event (any type, ids, malformed or not) through the real replay loop body"),
+        Unit("attach", hs, "zzC20_Attach", dict(STUB, only="C20/"), bounds="store of 3 items + pruned id AAAAAA; set result.path/result.summary on ANY id with arbitrary strings; validateResultPath / captureResultEvidence succeed or fail symbolically (L1 stubs)"),
+        Unit("compact", hs5, "zzC05_Compact_N2", {"loop": 40, "rec": 4, "only": "C20/"}, bounds="store of 2 items, 1 result per task, compacted by the real compactEvents and replayed"),
+    ]
+    if tier == "thorough":
+        us.append(Unit("compact-n3", hs5, "zzC05_Compact_N3", {"loop": 96, "rec": 4, "_wall": 7000, "only": "C20/"}, bounds="store of 3 items, 2 results per task"))
+    return us
+
+
+reg("C20", c20_units,
+    "bounded symbolic model checking of (a) the data flow of validateResultPath: every lexical rule is applied to the CLEANED path, the cleaned path is what is stat'ed below the project root and what is recorded, missing files and directories are refused (strings as atoms, Clean/IsAbs/Join/HasPrefix/Contains uninterpreted, os.Stat symbolic); (b) one arbitrary event through the real replay loop body from an arbitrary store: only a result event changes a Results list, by prepending exactly one entry (inductive step: results are never dropped, duplicated, reordered or altered by later commands); (c) attach through set only to a live task; (d) compaction preserves the lists.",
+    ["NOT decided: that the lexical rules on the cleaned path imply confinement for every byte string (needs filepath.Clean at byte level: the engine's address-union representation blew up on lazybuf, see DESIGN); sha256 = hash of the file content (crypto/sha256 not encodable); file_url derivation (net/url); symlinks (kernel path resolution)",
+     "L1 stubs: validateResultPath / captureResultEvidence in the attach unit succeed or fail symbolically; the path-rules unit runs the real validateResultPath over an os.Stat stub"])
